@@ -45,7 +45,11 @@ SlowTc(id, t, stream) == Tc(id, "exit", 0, 3, None, "stdout", stream, "match", t
 C14Tests(p, t) == [x \in 1..3 |-> IF x = p THEN SlowTc(Ids[1][x], t, "stdout") ELSE Kind("pass", Ids[1][x])]
 C14Cram(p)     == [x \in 1..3 |-> IF x = p THEN SlowTc(Ids[1][x], None, "combined") ELSE CramKind("pass", Ids[1][x])]
 ScenC14 == {Run(<<Doc("md", tfm, None, "no", C14Tests(p, t))>>, tcli, <<>>, <<>>, "cli", FALSE) :
-                 p \in 1..3, t \in {None, 1, 6}, tfm \in {None, 0, 1, 6}, tcli \in {None, 1, 6}}
+                 p \in 1..3, t \in {None, 1, 6}, tfm \in {None, 0, 1, 6}, tcli \in {None, 0, 1, 6}}
+           \* the document limit elapses BETWEEN two commands (scrut waits 2 ticks before the second one)
+           \cup {Run(<<Doc("md", tfm, None, "no", <<Kind("pass", "d1t1"), [Kind("pass", "d1t2") EXCEPT !.wait = 2],
+                                                      SlowTc("d1t3", None, "stdout")>>)>>, tcli, <<>>, <<>>, "cli", FALSE) :
+                 tfm \in {None, 1}, tcli \in {None, 1}}
            \cup {Run(<<Doc("cram", None, None, "no", C14Cram(p))>>, tcli, <<>>, <<>>, "cli", FALSE) :
                  p \in 1..3, tcli \in {None, 1, 6}}
 
@@ -85,6 +89,10 @@ ScenC20 == {Run(<<d1>>, None, pre, app, via, FALSE) : d1 \in MdDocsOf(1), pre \i
                      d1 \in MdDocsOf(1), n2 \in {"pass", "failout"}, pre \in Shared("p1"), app \in Shared("a1"), via \in {"cli", "fm"}}
            \cup {Run(<<d1, Md(MkTests(2, <<"pass">>)), Md(MkTests(3, <<n3>>))>>, None, <<>>, <<>>, "cli", FALSE) :
                      d1 \in DocsOf(1), n3 \in {"pass", "failout"}}
+           \* a document limit that is exceeded (per-document and per-test), alone and followed by another document
+           \cup {Run(<<Doc("md", tfm, None, "no", <<Kind("pass", "d1t1"), Tc("d1t2", "exit", 0, 3, None, "none", "stdout", "none", t, FALSE, None)>>)>> \o rest,
+                      None, <<>>, <<>>, "cli", FALSE) :
+                     tfm \in {None, 1}, t \in {None, 1}, rest \in {<<>>, <<Md(MkTests(2, <<"pass">>))>>}}
            \* faults: an unreadable / unparsable document at position 1 or 2, a shell that does not exist
            \cup {Run(<<[d1 EXCEPT !.fault = f], Md(MkTests(2, <<n2>>))>>, None, <<>>, <<>>, "cli", FALSE) :
                      d1 \in {Md(MkTests(1, <<"pass">>))}, f \in {"unreadable", "unparsable"}, n2 \in {"pass", "failout"}}
